@@ -54,6 +54,10 @@ def gen(tier, rng):
                 lines.append("S %d %d %d %d %d" % (a, b, inbound, s, ci))
                 lines.append("M %d %d %d" % (l, a if inbound else b, s))
             lines.append("D %d %d %d %d" % (a, b, inbound, a if inbound else b))
+            # the same while the first upstream attempts fail: whatever count is finally reported must still be the LCM
+            if a != b:
+                for faults in ("U", "UU", "I", "D", "A", "R", "UI"):
+                    lines.append("D %d %d %d %d %s" % (a, b, inbound, a if inbound else b, faults))
     # hash consistency through the real WorkflowIDToHistoryShard
     nw = 2000 if tier == "quick" else 20000
     for i in range(nw):
@@ -90,6 +94,8 @@ def check(tier, seed):
         if l.startswith("W "):
             f, g = l.split(), o.split()
             mlines.append("M %s %s %s" % (f[3], f[4], g[1] if len(g) > 1 else "0"))
+        elif l.startswith("D "):
+            mlines.append(" ".join(l.split()[:5]))     # the fault pattern is not the model's business
         else:
             mlines.append(l)
     err, model = L.run_model(exe, [], mlines)
@@ -109,6 +115,10 @@ def check(tier, seed):
             if m != expect:
                 diffs.append(i)
                 mon.append(i)   # hash consistency is the property itself
+        elif k == "D" and len(l.split()) > 5:
+            # with upstream faults an error is an acceptable outcome; a count is not unless it is the model's
+            if o != m and o != "D error":
+                diffs.append(i)
         else:
             if o != m:
                 diffs.append(i)
@@ -124,7 +134,7 @@ def check(tier, seed):
                 distinct.add(l)
         elif k == "D":
             a, b = int(f[1]), int(f[2])
-            if o != "D %d" % (a * b // gcd(a, b)):
+            if o != "D %d" % (a * b // gcd(a, b)) and not (len(f) > 5 and o == "D error"):
                 mon.append(i)
         elif k == "G":
             a, b = int(f[1]), int(f[2])
